@@ -156,7 +156,7 @@ func runC19(c *core.Ctx) {
 		}
 		var uses []cmpUse
 		core.InstrsGroup(p, so, func(_ *ssa.Function, ins ssa.Instruction) {
-			if call, ok := ins.(*ssa.Call); ok && core.Callee(&call.Call) == sortFn && len(call.Call.Args) == 2 {
+			if call, ok := ins.(*ssa.Call); ok && len(call.Call.Args) == 2 && (core.Callee(&call.Call) == sortFn || c19forwardsToSort(core.Callee(&call.Call), sortFn)) {
 				arg := call.Call.Args[0]
 				var cands []ssa.Value
 				if phi, isPhi := core.Resolve(arg).(*ssa.Phi); isPhi {
@@ -475,11 +475,14 @@ func c19descriptor(p *core.Prog, f *ssa.Function, sign int64) (bool, string) {
 	// key of item k: the call descriptor.TransformedBy()(item_k) in f, seen from the frame the value lives in
 	keyOf := func(v ssa.Value, stack []*ssa.Call) int {
 		u, st := core.Up(core.Unwrap(core.Resolve(v)), stack)
-		if len(st) != 0 {
-			return -1
-		}
 		call, ok := core.Unwrap(core.Resolve(u)).(*ssa.Call)
 		if !ok || len(call.Call.Args) != 1 {
+			return -1
+		}
+		// the item the key is taken from, seen from the comparator's own frame (the key may be computed in a helper
+		// that was handed the items)
+		item, ist := core.Up(core.Unwrap(core.Resolve(call.Call.Args[0])), st)
+		if len(ist) != 0 {
 			return -1
 		}
 		r1, r2, _, _, okR := c19roles(f)
@@ -487,7 +490,7 @@ func c19descriptor(p *core.Prog, f *ssa.Function, sign int64) (bool, string) {
 			return -1
 		}
 		for k, pos := range []int{r1, r2} {
-			if call.Call.Args[0] == ssa.Value(f.Params[pos]) {
+			if item == ssa.Value(f.Params[pos]) {
 				return k
 			}
 		}
@@ -656,7 +659,8 @@ func c19iteration(p *core.Prog, f *ssa.Function) (bool, string) {
 		}
 		for i, e := range ph.Edges {
 			start := core.Resolve(ph.Edges[1-i])
-			if (idxPrm != nil && start == ssa.Value(idxPrm) || idxPrm == nil && core.IsIntConst(start, 0)) && c19idxPlus1(e, ph) {
+			// (an index parameter that is 0 at its only call site reads as the constant)
+			if (idxPrm != nil && start == ssa.Value(idxPrm) || core.IsIntConst(start, 0)) && c19idxPlus1(e, ph) {
 				phi, back = ph, i
 			}
 		}
@@ -1004,4 +1008,24 @@ func c19onlyStable(p *core.Prog, sortFn *ssa.Function) (bool, int, int, string) 
 		}
 	})
 	return min == 1 && max == 1 && writes == "", min, max, writes
+}
+
+// c19forwardsToSort: g (comparator, items) sorts by handing exactly its two parameters, in order, to sortFn once on
+// every path (SortSlice is Sort with a variadic list).
+func c19forwardsToSort(g, sortFn *ssa.Function) bool {
+	if g == nil || sortFn == nil || g == sortFn || len(g.Blocks) == 0 || len(g.Params) != 2 {
+		return false
+	}
+	ok := true
+	min, max := core.PathCount(g, func(ins ssa.Instruction) int {
+		call, isC := ins.(*ssa.Call)
+		if !isC || core.Callee(&call.Call) != sortFn {
+			return 0
+		}
+		if len(call.Call.Args) != 2 || core.Resolve(call.Call.Args[0]) != ssa.Value(g.Params[0]) || core.Resolve(call.Call.Args[1]) != ssa.Value(g.Params[1]) {
+			ok = false
+		}
+		return 1
+	}, nil)
+	return ok && min == 1 && max == 1
 }
